@@ -351,7 +351,11 @@ def check_run_two_transitions(cfg, acc):
         def sample(state, r, key=key, orig=orig):
             logs[key].append(("sample", float(integs[key].step_size),
                               metric_digest(systems[key].metric)))
-            return orig(state, r)
+            out = orig(state, r)
+            if key == "second" and cfg.get("second_no_stats"):
+                # a transition that reports no statistics (like the momentum transitions)
+                return out[0], None
+            return out
 
         trans[key].sample = sample
         if mix:
@@ -369,7 +373,14 @@ def check_run_two_transitions(cfg, acc):
     try:
         sampler.sample_chains(cfg["n_warm"], cfg["n_main"], inits, adapters=adapters,
                               stager=stager, n_process=1, display_progress=False)
-    except AdaptationError:
+    except AdaptationError as e:
+        if cfg.get("second_no_stats"):
+            # single adaptive stage of n_warm >= 2 iterations: every adapter sees enough samples
+            acc.violation(driver="run2", config=cfg,
+                          fields={**F, "what": "adapter_on_transition_without_statistics_starved"},
+                          kind="adaptation_confinement", observed=repr(e)[:200],
+                          expected="adapters are updated in every iteration of their stages")
+            return
         acc.count("adaptation_error_refused")
         return
     except Exception as e:  # noqa: BLE001
@@ -444,6 +455,13 @@ def configs(tier, seed):
                     cfgs.append({"mode": "run2", "stager": stager, "mix_first": mix_first,
                                  "mix_second": mix_second, "n_warm": n_warm, "n_main": 2,
                                  "n_chain": n_chain, "seed": seed})
+    # an adapted transition that reports no statistics (metric adapters do not need any)
+    for mix_second in (("var",), ("covar",)):
+        for n_warm in (2, 5):
+            for n_chain in (1, 2):
+                cfgs.append({"mode": "run2", "stager": "warmup", "mix_first": ("step",),
+                             "mix_second": mix_second, "n_warm": n_warm, "n_main": 2,
+                             "n_chain": n_chain, "seed": seed, "second_no_stats": True})
     return cfgs
 
 
